@@ -1,6 +1,6 @@
 #!/bin/bash
 # run every quick check with several seeds; report anything that is not OK (false-alarm hunt on the unchanged tree)
-cd /verif
+cd "$(dirname "$(readlink -f "$0")")"
 for seed in ${@:-2 3}; do
   for p in C01 C02 C03 C04 C05 C06 C07 C08 C09 C10 C11 C12 C13 C14 C15 C16 C17 C18 C19; do
     out=$(VERIF_SEED=$seed timeout 1800 ./check $p 2>&1 | grep -v "^KNOWN-FINDING" | head -3)
